@@ -10,7 +10,7 @@ if [ ! -d $wt ]; then git -C /repo worktree add --detach $wt $head >/dev/null 2>
 git -C $wt checkout -q -- . && git -C $wt checkout -q --detach $head && git -C $wt apply $out/patch.diff || { echo "cannot apply $id"; exit 3; }
 for P in "$@"; do
   [ "$(git -C $wt diff | git patch-id --stable | cut -d' ' -f1)" = "$(git patch-id --stable < $out/patch.diff | cut -d' ' -f1)" ] || { echo "CONTAMINATED before" > .work/seedrun-$id-$P.log; continue; }
-  VERIF_REPO=$wt ./check $P --tier quick > .work/seedrun-$id-$P.log 2>&1; echo "exit=$?" >> .work/seedrun-$id-$P.log
+  VERIF_REPO=$wt flock .work/lock-$P ./check $P --tier quick > .work/seedrun-$id-$P.log 2>&1; echo "exit=$?" >> .work/seedrun-$id-$P.log
   echo "base=$head" >> .work/seedrun-$id-$P.log
   [ "$(git -C $wt diff | git patch-id --stable | cut -d' ' -f1)" = "$(git patch-id --stable < $out/patch.diff | cut -d' ' -f1)" ] || echo "CONTAMINATED after" >> .work/seedrun-$id-$P.log
 done
